@@ -28,7 +28,7 @@ var c13Bodies = []string{
 // what each body renders when nothing fails (p is the symbolic prefix value printed first)
 var c13BodyOut = []string{"", "", "", "", "<>", "", "", "", "<<>>", "", ""}
 
-var c13Catches = []string{`{{ catch e }}C{{ e != nil }}`, `{{ catch }}C`, ``}
+var c13Catches = []string{`{{ catch e }}C{{ e != nil }}<{{ . }}>`, `{{ catch }}C<{{ . }}>`, ``}
 
 // H_C13_try: PRE {{try}} p BODY {{catch ...}} .. {{end}} POST, at top level (host 0) and
 // inside a block invoked with caller content (host 1). p is a symbolic string of 1 (quick) / 2 (thorough) bytes
@@ -44,18 +44,29 @@ func H_C13_try() {
 	c := ndChoice("catch", len(c13Catches))
 	host := ndChoice("host", 2)
 	fails := ndBool("fails")
+	nilData := ndBool("nilData")   // Execute called with nil data: '.' is invalid outside
+	outerE := ndBool("outerE")     // a variable named like the catch variable exists before the try
 	pn := 1
 	if vfTier() == 1 {
 		pn = 2
 	}
-	p := ndString("p", pn)
+	p := "<"
+	if b == 0 || vfTier() == 1 {
+		// the value printed before the failure point is symbolic for the plain body (the
+		// interplay of escaping and buffering does not depend on the body's shape)
+		p = ndString("p", pn)
+	}
 	stmt := `{{ try }}{{ p }}` + c13Bodies[b] + c13Catches[c] + `{{ end }}`
-	post := `|{{ . }}|{{ isset(y) }}|{{ isset(e) }}|{{ z }}|{{ yield content }}|`
+	post := `|{{ . }}|{{ isset(y) }}|{{ isset(e) ? e : "unset" }}|{{ z }}|{{ yield content }}|`
+	decl := `{{ z := 7 }}`
+	if outerE {
+		decl += `{{ e := "outerE" }}`
+	}
 	var main string
 	if host == 0 {
-		main = `{{ z := 7 }}PRE` + stmt + post
+		main = decl + `PRE` + stmt + post
 	} else {
-		main = `{{ block host() }}{{ z := 7 }}PRE` + stmt + post + `{{ end }}{{ yield host() content }}CC{{ end }}`
+		main = `{{ block host() }}` + decl + `PRE` + stmt + post + `{{ end }}{{ yield host() content }}CC{{ end }}`
 	}
 	set := hxSet(nil,
 		"/m.jet", `{{ import "/lib.jet" }}`+main,
@@ -72,7 +83,12 @@ func H_C13_try() {
 		}
 		return reflect.ValueOf("")
 	})
-	out, err := hxExec(set, "/m.jet", vars, "D")
+	var data interface{} = "D"
+	dot := "D"
+	if nilData {
+		data, dot = nil, ""
+	}
+	out, err := hxExec(set, "/m.jet", vars, data)
 	vfAssert(err == nil, "try never lets the body's error escape")
 	if err != nil {
 		return
@@ -81,7 +97,11 @@ func H_C13_try() {
 	if host == 1 {
 		content = "CC"
 	}
-	after := "|D|false|false|7|" + content + "|"
+	eAfter := "unset"
+	if outerE {
+		eAfter = "outerE"
+	}
+	after := "|" + dot + "|false|" + eAfter + "|7|" + content + "|"
 	pe := string(refEsc([]byte(p)))
 	var want string
 	if !fails {
@@ -90,9 +110,9 @@ func H_C13_try() {
 	} else if c < 2 {
 		vfReach("caught")
 		if c == 0 {
-			want = "PRE" + "Ctrue" + after
+			want = "PRE" + "Ctrue<" + dot + ">" + after
 		} else {
-			want = "PRE" + "C" + after
+			want = "PRE" + "C<" + dot + ">" + after
 		}
 	} else {
 		vfReach("uncaught")
